@@ -204,6 +204,25 @@ def run(ctx):
                         "a name with `..`, mixed separators or a leading separator escapes the output directory")
             else:
                 ctx.ok(R_join, {"fn": f.path, "line": t["ln"], "sanitised_by": sanit})
+    # ... and no success return of a sanitiser comes before its test: every Ok exit is dominated by the components() walk
+    R_all = ctx.rule("C11.sanitiser-has-no-untested-success-path", "every Ok return of a component sanitiser is dominated by its call of Iterator::all / any over path components (no early `return Ok(..)` ahead of the test)", floor=1)
+    for sp in sorted(san_fns):
+        sf = cli.fns.get(sp) or mpq.fns.get(sp)
+        if sf is None or not sf.mir or not sf.mir.get("blocks") or "security::" in sp:
+            continue
+        tests = [bb for bb, t in mirg.iter_calls(sf) if re.search(r"Iterator::(all|any|find|position)$|Components.*::(all|any)$", ncallee(t) or "") and re.search(r"Components|path::", (mirg.callee(t) or "") + str(t.get("f")))]
+        if not tests:
+            continue
+        ctx.saw_fn(sf)
+        cfg_s = mirg.Cfg(sf)
+        from ..rules import ret_assignments as _ra
+        oks = [bb for bb, kind, _p in _ra(sf) if kind in ("ok", "copy", "other", "call")]
+        early = [o for o in oks if not any(cfg_s.dominates(tb, o) for tb in tests)]
+        if early:
+            ctx.bad(R_all, "%s|untested-success-path" % sp.split("::")[-1], sf.where, "a success return (bb%d) is reachable without passing the component test" % early[0],
+                    "for the inputs that take that path (an empty or `.` output directory, a name of a particular shape) the name is joined unvalidated: `..` components or an absolute path leave the output directory")
+        else:
+            ctx.ok(R_all, {"sanitiser": sp.split("::")[-1], "ok_exits": len(oks), "tests": len(tests)})
     for sp in sorted(san_fns):
         sf = cli.fns.get(sp) or mpq.fns.get(sp)
         if sf is None or not sf.hir or "security::" in sp:
